@@ -696,8 +696,17 @@ class BinaryOp(Expr):
                 'non-primitive values')
 
     def _eval_numeric(self):
-        left = self.type.coerce(self.left.eval())
-        right = self.type.coerce(self.right.eval())
+        # operands are converted to the type of the result, except for
+        # comparisons, which (as in the generated code) compare their
+        # operands in the bigger of the two operand types
+        operand_type = self.type
+        if self.op.is_comparison:
+            for t in (Type.DOUBLE, Type.SINGLE, Type.LONG, Type.INTEGER):
+                if self.left.type == t or self.right.type == t:
+                    operand_type = t
+                    break
+        left = operand_type.coerce(self.left.eval())
+        right = operand_type.coerce(self.right.eval())
 
         def qbool(x):
             return -1 if x else 0
